@@ -9,7 +9,7 @@ from .c01 import tol_time
 
 MANIFEST = dict(
     technique="Lean 4 proof over Q (delay-law algebra, monotonicity, round-half-even, index map of the per-channel realignment) with the dispersion constant regenerated from dedispersion.py by the translator + differential correspondence of DispersionMeasure.time_delay/sample_delay and incoherent_dedispersion (provenance of every output sample)",
-    level_text="law K*DM*(f^-2 - r^-2) with K read from the source, antisymmetry, additivity, monotonicity in f (end channels bound all), np.round model, and for EVERY length/channel list/delay list: in-range sources k+round(d_i)+crop_before, start advance crop_before/rate, time statement T_out + round(d_i)/rate, empty result when no valid sample; real functions compared with the model and each output sample traced to its source",
+    level_text="the expression assigned to `delay` in time_delay, translated symbolically on every run, equals the model's law (C06_source_formula); law K*DM*(f^-2 - r^-2) with K read from the source, antisymmetry, additivity, monotonicity in f (end channels bound all), np.round model, and for EVERY length/channel list/delay list: in-range sources k+round(d_i)+crop_before, start advance crop_before/rate, time statement T_out + round(d_i)/rate, empty result when no valid sample; real functions compared with the model and each output sample traced to its source",
     level_note="Trusted: Lean kernel (+3 std axioms); translator (constant literal + unit exponents); hand model PbModel/Disp.lean tied by correspondence; float evaluation of the law by astropy (validated at 16 ulp of K|DM|(f^-2+r^-2)); the doubles returned by the public sample_delay are given to the model exactly",
 )
 
@@ -21,7 +21,7 @@ class Prop(PropBase):
     id = "C06"
     lean_targets = ["PbProps.C06"]
     theorems = ["Pb.C06." + t for t in ("C06_law", "C06_antisym", "C06_additive", "C06_monotone", "C06_round",
-                                        "C06_ends_bound", "C06_incoh", "C06_incoh_empty")]
+                                        "C06_ends_bound", "C06_incoh", "C06_incoh_empty", "C06_source_formula")]
     trusted_base = ["PbModel/Disp.lean (hand model) + Gen/Disp.lean (translator output)",
                     "astropy Quantity arithmetic evaluating the law (validated, not proved)"]
     assumptions = ["channel labels positive (the law is singular at 0)"]
